@@ -2,6 +2,7 @@ package main
 
 import (
 	"fmt"
+	"sort"
 	"os"
 	"strings"
 
@@ -76,6 +77,18 @@ func dumpPath(e *Engine, a, b string, stopName string) {
 
 func runSurvey(e *Engine, what string) {
 	switch what {
+	case "anchors":
+		// run every property once so that all anchors are requested, then dump
+		for _, id := range sortedProps() {
+			r := &Report{Prop: id, e: e, cfg: "survey"}
+			runProperty(registry[id], e, r)
+		}
+		var names []string
+		for n := range e.requested {
+			names = append(names, n)
+		}
+		sort.Strings(names)
+		e.dumpAnchors(names)
 	case "acc":
 		for _, f := range e.ScopeFuncs() {
 			for _, lf := range loopFlags(f) {
@@ -83,4 +96,13 @@ func runSurvey(e *Engine, what string) {
 			}
 		}
 	}
+}
+
+func sortedProps() []string {
+	var ids []string
+	for id := range registry {
+		ids = append(ids, id)
+	}
+	sort.Strings(ids)
+	return ids
 }
